@@ -696,6 +696,24 @@ def gen_C07(tier, seed):
         p.write(1, fname='second.dlis')
         p.set_origin_ref(a, 9 if what not in ('origin-channel', 'both') else None) if False else None
         progs.append(p.build())
+    # an object renamed to a name another object of its set already has: identities stay distinct, references keep their target
+    for i in range(4):
+        p = Prog(f'C07-renamecollide-{i}', {'kind': 'renamecollide'})
+        lf, o = base_lf(p)
+        c = p.channel(lf, 'CH', data=np.arange(3, dtype='float64'))
+        p.frame(lf, 'FR', [c])
+        za = p.add(lf, 'zone', 'A', description=S('first'))
+        zb = p.add(lf, 'zone', 'B', description=S('second'))
+        zc = p.add(lf, 'zone', 'A', description=S('third'))            # copy 1 of A
+        p.add(lf, 'parameter', 'P', zones=L(R(zb)), values=L(F(1.0)))
+        p.add(lf, 'group', 'G', object_list=L(R(za), R(zb), R(zc)))
+        if i % 2:
+            p.write(1, fname='first.dlis')
+        p.rename(zb, 'A')
+        if i >= 2:
+            p.rename(za, 'B')          # and the first one takes the name that became free
+        p.write(1, fname='second.dlis')
+        progs.append(p.build())
     progs += foreign_reference_programs('C07')
     return progs
 
